@@ -226,6 +226,11 @@ def analyse(mo):
         fields.append(f)
     mo['fields'] = fields
     mo['other'] = other
+    # the reader model is a FUNCTION of (dictionary, store); a relation on the result only where a default builds a Vec
+    mo['rel'] = any(f['default'] is not None and f['dflt'][0] == 'vec2' for f in fields)
+    members = [f for f in mo['members'] if not f['skip']]
+    if other is not None and members[-1]['ident'] != other:
+        raise Unsupported('`other` field is not the last field (the derived reader moves the dictionary before the later fields are read)')
     mo['indirect'] = [f for f in fields if f['indirect']]
     if mo['indirect'] and not mo['writer']:
         pass
@@ -315,7 +320,30 @@ def struct_specs(mo):
     if mo['other']:
         known = ' || '.join('k == %s' % slit(f['key']) for f in F) or 'false'
         out.append('pub open spec fn %s_known(k: Seq<char>) -> bool {\n    %s\n}' % (p, known))
-    if mo['reader']:
+    if mo['other'] and not mo['rel']:
+        un = 'm'
+        for f in F:
+            un = 'del(%s, %s)' % (un, slit(f['key']))
+        out.append('// the catch-all: the input without the recognised keys (lemma_%s_unknown: exactly the entries whose key is not recognised)\n'
+                   'pub open spec fn %s_unknown(m: DMap) -> DMap {\n    %s\n}' % (p, p, un))
+    if mo['reader'] and not mo['rel']:
+        errF = 'Err(e__) => Err(e__)'
+        lines = []
+        for k, v, req in checks_of(mo):
+            lines.append('    match expect_spec(m, %s, %s, %s, %s) { %s, Ok(_) =>' % (rlit(name), slit(k), slit(v), 'true' if req else 'false', errF))
+        for f in F:
+            lines.append('    match %s { %s, Ok(f_%s) =>' % (rd_call(mo, f), errF, f['ident']))
+        inits = []
+        for f in F:
+            if f['default'] is not None:
+                inits.append('%s: or_default(f_%s, %s)' % (f['ident'], f['ident'], f['dflt'][1]))
+            else:
+                inits.append('%s: f_%s' % (f['ident'], f['ident']))
+        if mo['other']:
+            inits.append('%s: Dictionary { m: Ghost(%s_unknown(m)) }' % (mo['other'], p))
+        body = '\n'.join(lines) + '\n        Ok(%s { %s })\n    ' % (name, ', '.join(inits)) + '}' * len(lines)
+        out.append('pub open spec fn %s_read%s(m: DMap, st: Store) -> Result<%s> {\n%s\n}' % (p, gO, M, body))
+    if mo['reader'] and mo['rel']:
         lines = []
         for k, v, req in checks_of(mo):
             lines.append('    match expect_spec(m, %s, %s, %s, %s) { %s, Ok(_) =>' % (rlit(name), slit(k), slit(v), 'true' if req else 'false', errR))
@@ -328,15 +356,11 @@ def struct_specs(mo):
             else:
                 res.append('x.%s == f_%s' % (f['ident'], f['ident']))
         if mo['other']:
-            o = mo['other']
-            # the catch-all holds exactly the entries that are not recognised keys
-            res.append('(forall|k: Seq<char>| #![trigger x.%s@.dom().contains(k)] #![trigger m.dom().contains(k)]\n'
-                       '                x.%s@.dom().contains(k) <==> (m.dom().contains(k) && !%s_known(k)))' % (o, o, p))
-            res.append('(forall|k: Seq<char>| #![trigger x.%s@.dom().contains(k)] #![trigger x.%s@[k]]\n'
-                       '                x.%s@.dom().contains(k) ==> x.%s@[k] == m[k])' % (o, o, o, o))
+            raise Unsupported('Vec-valued default together with a catch-all')
         nclose = len(lines)
         body = '\n'.join(lines) + '\n        ' + '\n            && '.join(res) + '\n    ' + '}' * nclose
         out.append('pub open spec fn %s_read%s(m: DMap, st: Store, r: Result<%s>) -> bool {\n%s\n}' % (p, gO, M, body))
+    if mo['reader']:
         # prefix-success predicate used by lemma_<p>_failing
         lines = ['    &&& %s is Ok' % ('expect_spec(m, %s, %s, %s, %s)' % (rlit(name), slit(k), slit(v), 'true' if req else 'false'))
                  for k, v, req in checks_of(mo)]
@@ -352,37 +376,52 @@ def struct_specs(mo):
             base = 'ins(%s, %s, nm(%s))' % (base, slit(k), slit(v))
         out.append('pub open spec fn %s_base%s(x: %s) -> DMap {\n    %s\n}' % (p, gW, M, base))
         # the model is built entry by entry (`<p>_dict_<i>` = the first i declared entries on top of the base): the R1 step
-        # assertions injected into to_dict name these prefixes, which keeps the proof linear in the number of entries
-        direct = [f for f in F if not f['indirect']]
-        fin = '%s_dict' % p if not mo['indirect'] else '%s_rest' % p
+        # assertions injected into to_dict name these prefixes, which keeps the proof linear in the number of entries.
+        # An `indirect` entry holds a value `v_<field>` that is a parameter of the model (constrained by <p>_ind_<field>).
+        vp, va = ind_params(mo), ind_args(mo, 'v_%s')
         prev = '%s_base(x)' % p
-        if mo['indirect']:
-            out.append('// `<p>_rest`: every entry but the `indirect` ones')
-        for i, f in enumerate(direct):
-            nm_ = fin if i == len(direct) - 1 else '%s_%d' % (fin, i + 1)
-            out.append('pub open spec fn %s%s(x: %s) -> DMap { put(%s, %s, x.%s.writes()) }' % (nm_, gW, M, prev, slit(f['key']), f['ident']))
-            prev = nm_ + '(x)'
-        if not direct:
-            out.append('pub open spec fn %s%s(x: %s) -> DMap { %s }' % (fin, gW, M, prev))
+        for i, f in enumerate(F):
+            nm_ = '%s_dict' % p if i == len(F) - 1 else '%s_dict_%d' % (p, i + 1)
+            val = ('v_%s' % f['ident']) if f['indirect'] else ('x.%s.writes()' % f['ident'])
+            out.append('pub open spec fn %s%s(x: %s%s) -> DMap { put(%s, %s, %s) }' % (nm_, gW, M, vp, prev, slit(f['key']), val))
+            prev = '%s(x%s)' % (nm_, va)
+        if not F:
+            out.append('pub open spec fn %s_dict%s(x: %s%s) -> DMap { %s }' % (p, gW, M, vp, prev))
         if mo['indirect']:
             for f in mo['indirect']:
                 k = slit(f['key'])
-                out.append('// an `indirect` entry: the field\'s primitive form is stored as a new object through the Updater and the entry\n'
-                           '// holds the reference to it (unless the form already is a reference; a Null form writes no entry)\n'
-                           'pub open spec fn %s_ind_%s%s(x: %s, d: DMap, c0: Map<PlainRef, Primitive>, c1: Map<PlainRef, Primitive>) -> bool {\n'
+                out.append('// an `indirect` entry: the field\'s primitive form is stored as a new object through the Updater and the entry holds the\n'
+                           '// reference to it (unless the form already is a reference; a Null form writes no entry): `v` is the value of the entry\n'
+                           'pub open spec fn %s_ind_%s%s(x: %s, v: Primitive, c0: Map<PlainRef, Primitive>, c1: Map<PlainRef, Primitive>) -> bool {\n'
                            '    match x.%s.writes() {\n'
-                           '        Primitive::Null => (d.dom().contains(%s) <==> %s_base(x).dom().contains(%s)) && (d.dom().contains(%s) ==> d[%s] == %s_base(x)[%s]),\n'
-                           '        Primitive::Reference(rf) => d.dom().contains(%s) && d[%s] == Primitive::Reference(rf),\n'
-                           '        p__ => d.dom().contains(%s) && (d[%s] matches Primitive::Reference(rf)\n'
-                           '                && !c0.dom().contains(rf) && c1.dom().contains(rf) && c1[rf] == p__),\n'
-                           '    }\n}' % (p, f['ident'], gW, M, f['ident'], k, p, k, k, k, p, k, k, k, k, k))
-            rm = ''.join('.remove(%s)' % slit(f['key']) for f in mo['indirect'])
-            cl = ['    &&& d%s =~= %s_rest(x)%s' % (rm, p, rm)]
-            cl += ['    &&& %s_ind_%s(x, d, c0, c1)' % (p, f['ident']) for f in mo['indirect']]
+                           '        Primitive::Null => v is Null,\n'
+                           '        Primitive::Reference(rf) => v == Primitive::Reference(rf),\n'
+                           '        p__ => v matches Primitive::Reference(rf) && !c0.dom().contains(rf) && c1.dom().contains(rf) && c1[rf] == p__,\n'
+                           '    }\n}' % (p, f['ident'], gW, M, f['ident']))
+                out.append('pub open spec fn %s_indval_%s%s(x: %s, d: DMap) -> Primitive {\n    if x.%s.writes() is Null { Primitive::Null } else { d[%s] }\n}'
+                           % (p, f['ident'], gW, M, f['ident'], k))
+            vals = ind_args(mo, p + '_indval_%s(x, d)')
+            cl = ['    &&& d =~= %s_dict(x%s)' % (p, vals)]
+            cl += ['    &&& %s_ind_%s(x, %s_indval_%s(x, d), c0, c1)' % (p, f['ident'], p, f['ident']) for f in mo['indirect']]
             cl.append('    &&& submap(c0, c1)')
             out.append('pub open spec fn %s_written%s(x: %s, d: DMap, c0: Map<PlainRef, Primitive>, c1: Map<PlainRef, Primitive>) -> bool {\n%s\n}'
                        % (p, gW, M, '\n'.join(cl)))
     return '\n'.join(out)
+
+
+def ind_params(mo):
+    return ''.join(', v_%s: Primitive' % f['ident'] for f in mo['indirect'])
+
+
+def ind_args(mo, fmt):
+    return ''.join(', ' + (fmt % f['ident']) for f in mo['indirect'])
+
+
+def RD(mo, m, r):
+    """`r` is what the reader model yields on dictionary `m` (store `st`)"""
+    if mo['rel']:
+        return '%s_read(%s, st, %s)' % (mo['p'], m, r)
+    return '%s == %s_read%s(%s, st)' % (r, mo['p'], TF(mo), m)
 
 
 def struct_impl_block(mo):
@@ -402,7 +441,12 @@ def struct_lemmas(mo):
     F = mo['fields']
     facts = 'broadcast use dictmodel::group_all; ' + lits_facts(mo['keys'])
     out = []
-    okR = 'Ok::<%s, PdfError>' % M
+    if mo['other'] and not mo['rel']:
+        out.append('// the catch-all holds exactly the entries of the input that are not recognised keys, values unchanged\n'
+                   'pub proof fn lemma_%s_unknown(m: DMap)\n    ensures\n'
+                   '        forall|k: Seq<char>| #![trigger %s_unknown(m).dom().contains(k)] %s_unknown(m).dom().contains(k) <==> (m.dom().contains(k) && !%s_known(k)),\n'
+                   '        forall|k: Seq<char>| #![trigger %s_unknown(m)[k]] %s_unknown(m).dom().contains(k) ==> %s_unknown(m)[k] == m[k],\n'
+                   '{\n    broadcast use dictmodel::group_all;\n}' % (p, p, p, p, p, p, p))
     if mo['reader']:
         # ---- C18: absent optional key == None; absent defaulted key == the declared default
         ens = []
@@ -414,8 +458,8 @@ def struct_lemmas(mo):
         if ens:
             out.append('// C18: an absent optional key is read from Null, i.e. as None -- whatever the store holds; an absent defaulted key\n'
                        '// takes the declared default\n'
-                       'pub proof fn lemma_%s_absent%s(m: DMap, st: Store, r: Result<%s>)\n    requires %s_read(m, st, r), r is Ok,\n    ensures\n        %s,\n{}'
-                       % (p, gO, M, p, ',\n        '.join(ens)))
+                       'pub proof fn lemma_%s_absent%s(m: DMap, st: Store, r: Result<%s>)\n    requires %s, r is Ok,\n    ensures\n        %s,\n{}'
+                       % (p, gO, M, RD(mo, 'm', 'r'), ',\n        '.join(ens)))
         # ---- C18: a failing present entry is FromPrimitive{typ, field, source}; an unreadable absent one MissingEntry{typ}
         ens = []
         for i, f in enumerate(F):
@@ -431,8 +475,8 @@ def struct_lemmas(mo):
         if ens:
             out.append('// C18: the first failing entry decides the result: FromPrimitive{typ, field, source} for a present entry, MissingEntry{typ}\n'
                        '// for an absent one whose type cannot be read from Null; never a panic (panic_free of from_dict)\n'
-                       'pub proof fn lemma_%s_failing%s(m: DMap, st: Store, r: Result<%s>)\n    requires %s_read(m, st, r),\n    ensures\n        %s,\n{}'
-                       % (p, gO, M, p, ',\n        '.join(ens)))
+                       'pub proof fn lemma_%s_failing%s(m: DMap, st: Store, r: Result<%s>)\n    requires %s,\n    ensures\n        %s,\n{}'
+                       % (p, gO, M, RD(mo, 'm', 'r'), ',\n        '.join(ens)))
         # ---- type tag / checks
         ens = []
         for k, v, req in checks_of(mo):
@@ -442,8 +486,8 @@ def struct_lemmas(mo):
                 ens.append('m.dom().contains(%s) ==> m[%s] == nm(%s)' % (slit(k), slit(k), slit(v)))
         if ens:
             out.append('// type tag checked: an accepted dictionary carries the declared tag (an optional tag `X?` may be absent, not different)\n'
-                       'pub proof fn lemma_%s_type_checked%s(m: DMap, st: Store, r: Result<%s>)\n    requires %s_read(m, st, r), r is Ok,\n    ensures\n        %s,\n{}'
-                       % (p, gO, M, p, ',\n        '.join(ens)))
+                       'pub proof fn lemma_%s_type_checked%s(m: DMap, st: Store, r: Result<%s>)\n    requires %s, r is Ok,\n    ensures\n        %s,\n{}'
+                       % (p, gO, M, RD(mo, 'm', 'r'), ',\n        '.join(ens)))
     if mo['reader'] and mo['writer']:
         o = mo['other']
         nonnull = []
@@ -451,43 +495,86 @@ def struct_lemmas(mo):
             if f['default'] is not None and not (f['t'][0] == 'path' and f['t'][1] in NEVER_NULL):
                 nonnull.append('!(x.%s.writes() is Null)' % f['ident'])
         okeys = ['!x.%s@.dom().contains(%s)' % (o, slit(f['key'])) for f in F] if o else []
-        if not mo['indirect']:
-            for weak in (False, True):
-                hyp = ['%s(x.%s, st)' % ('rt_weak' if weak else 'rt_strong', f['ident']) for f in F]
-                req = hyp + nonnull + okeys + ['%s_read(%s_dict(x), st, r)' % (p, p)]
-                if weak:
-                    ens = 'r matches Ok(x2) && %s_dict(x2) =~= %s_dict(x)' % (p, p)
-                else:
-                    eqs = ['x2.%s == x.%s' % (f['ident'], f['ident']) for f in F]
-                    if o:
-                        eqs.append('x2.%s@ =~= %s_base(x)' % (o, p))
-                    ens = 'r matches Ok(x2)' + ''.join(' && ' + e for e in eqs)
-                cm = ('// C15 sentence 1 (weak form, the property\'s own): write -> read -> write reproduces the first dictionary'
-                      if weak else '// C15 sentence 1: reading back what was written yields the value (field codecs round-trip)')
-                extra = ''
-                if o:
-                    cm += '\n// (hypothesis: the catch-all of the value holds no recognised key -- true of every value from_dict returns, see %s_read)' % p
-                out.append('%s\npub proof fn lemma_%s_roundtrip%s%s(x: %s, st: Store, r: Result<%s>)\n    requires\n        %s,\n    ensures %s\n{\n    %s%s\n}'
-                           % (cm, p, '_weak' if weak else '', gB, M, M, ',\n        '.join(req), ens, facts, extra))
-        else:
-            ik = [f['key'] for f in mo['indirect']]
-            hyp = ['rt_strong(x.%s, st)' % f['ident'] for f in F]
-            hyp += ['!(x.%s.writes() is Reference)' % f['ident'] for f in mo['indirect']]
-            for f in mo['indirect']:
+        ind = mo['indirect']
+        vp, va = ind_params(mo), ind_args(mo, 'v_%s')
+        Dx = '%s_dict(x%s)' % (p, va)
+        # ---- helper: what a look-up of each declared key in the written dictionary yields (one chain walk per key)
+        lk = []
+        for k, v, _req in checks_of(mo):
+            lk.append('%s.dom().contains(%s) && %s[%s] == nm(%s)' % (Dx, slit(k), Dx, slit(k), slit(v)))
+        for f in F:
+            k = slit(f['key'])
+            val = ('v_%s' % f['ident']) if f['indirect'] else ('x.%s.writes()' % f['ident'])
+            lk.append('%s.dom().contains(%s) <==> !(%s is Null)' % (Dx, k, val))
+            lk.append('!(%s is Null) ==> %s[%s] == %s' % (val, Dx, k, val))
+        if lk:
+            out.append('// the written dictionary, key by key: a declared entry is present iff the field\'s primitive form is not Null\n'
+                       'pub proof fn lemma_%s_dict_lookup%s(x: %s%s)\n%s    ensures\n        %s,\n{\n    %s\n}'
+                       % (p, G(mo, 'ObjectWrite'), M, vp, ('    requires\n        %s,\n' % ',\n        '.join(okeys)) if okeys else '', ',\n        '.join(lk), facts))
+        if o:
+            out.append('// ... and what remains of it when the recognised keys are taken out again is the base (catch-all + tags)\n'
+                       'pub proof fn lemma_%s_unknown_dict%s(x: %s%s)\n%s    ensures %s_unknown(%s) =~= %s_base(x)\n{\n    %s lemma_%s_unknown(%s);\n}'
+                       % (p, G(mo, 'ObjectWrite'), M, vp, ('    requires\n        %s,\n' % ',\n        '.join(okeys)) if okeys else '', p, Dx, p, facts, p, Dx))
+        for weak in ((False, True) if not ind else (False,)):
+            hyp = ['%s(x.%s, st)' % ('rt_weak' if weak else 'rt_strong', f['ident']) for f in F]
+            body = []
+            if ind:
+                # through the indirect entry: the store a later reader resolves against holds what the updater created, and the
+                # field's reader looks through a reference (hypotheses on the environment / the abstract codec)
+                hyp += ['!(x.%s.writes() is Reference)' % f['ident'] for f in ind]
+                for f in ind:
+                    ty = ty_rust(f['t'])
+                    hyp.append('forall|rf: PlainRef| #![trigger c1[rf]] c1.dom().contains(rf) && !c0.dom().contains(rf) ==>\n'
+                               '            <%s>::reads(Primitive::Reference(rf), st) == <%s>::reads(c1[rf], st)' % (ty, ty))
+                req = ['%s_written(x, d, c0, c1)' % p] + hyp + nonnull + okeys + [RD(mo, 'd', 'r')]
+                for f in ind:
+                    body.append('let v_%s = %s_indval_%s(x, d);' % (f['ident'], p, f['ident']))
+                body.append('assert(d == %s);' % Dx)
+                D = 'd'
+            else:
+                req = hyp + nonnull + okeys + [RD(mo, Dx, 'r')]
+                D = Dx
+            if lk:
+                body.append('lemma_%s_dict_lookup(x%s);' % (p, va))
+            # one assertion per field: joins the two cases "form is Null -> entry absent -> read from Null" and "entry present"
+            for f in F:
                 ty = ty_rust(f['t'])
-                hyp.append('forall|rf: PlainRef| #![trigger c1[rf]] c1.dom().contains(rf) && !c0.dom().contains(rf) ==>\n'
-                           '            <%s>::reads(Primitive::Reference(rf), st) == <%s>::reads(c1[rf], st)' % (ty, ty))
-            req = ['%s_written(x, d, c0, c1)' % p] + hyp + nonnull + okeys + ['%s_read(d, st, r)' % p]
-            eqs = ['x2.%s == x.%s' % (f['ident'], f['ident']) for f in F]
-            ne = ' && '.join('k != %s' % slit(k) for k in ik)
-            rem = 'd' + ''.join('.remove(%s)' % slit(k) for k in ik)
-            hint = ('\n    assert(forall|k: Seq<char>| %s ==> (d.dom().contains(k) <==> %s.dom().contains(k)));'
-                    '\n    assert(forall|k: Seq<char>| %s && d.dom().contains(k) ==> d[k] == %s[k]);' % (ne, rem, ne, rem))
-            out.append('// C15 sentence 1 through the indirect entry: the store a later reader resolves against holds what the updater created,\n'
-                       '// and the field\'s reader looks through a reference (hypotheses on the environment / the abstract codec)\n'
-                       'pub proof fn lemma_%s_roundtrip%s(x: %s, d: DMap, c0: Map<PlainRef, Primitive>, c1: Map<PlainRef, Primitive>, st: Store, r: Result<%s>)\n'
-                       '    requires\n        %s,\n    ensures r matches Ok(x2)%s\n{\n    %s%s\n}'
-                       % (p, gB, M, M, ',\n        '.join(req), ''.join(' && ' + e for e in eqs), facts, hint))
+                call = rd_call(mo, f).replace('(m, ', '(%s, ' % D, 1)
+                if not weak:
+                    if f['default'] is None:
+                        body.append('assert(%s == Ok::<%s, PdfError>(x.%s));' % (call, ty, f['ident']))
+                    else:
+                        body.append('assert(%s == Ok::<Option<%s>, PdfError>(Some(x.%s)));' % (call, ty, f['ident']))
+                else:
+                    if f['default'] is None:
+                        body.append('assert(%s matches Ok(v__) && v__.writes() == x.%s.writes());' % (call, f['ident']))
+                    else:
+                        body.append('assert(%s matches Ok(Some(v__)) && v__.writes() == x.%s.writes());' % (call, f['ident']))
+            if o:
+                body.append('lemma_%s_unknown_dict(x%s);' % (p, va))
+            if weak:
+                ens = 'r matches Ok(x2) && %s_dict(x2) =~= %s_dict(x)' % (p, p)
+                body.append('let x2 = r->Ok_0;')
+                if o:
+                    body.append('assert(%s_base(x2) =~= %s_base(x)) by { broadcast use dictmodel::group_all; }' % (p, p))
+                for i, f in enumerate(F):
+                    nm_ = '%s_dict' % p if i == len(F) - 1 else '%s_dict_%d' % (p, i + 1)
+                    body.append('assert(%s(x2) == %s(x));' % (nm_, nm_))
+            else:
+                eqs = ['x2.%s == x.%s' % (f['ident'], f['ident']) for f in F]
+                if o:
+                    eqs.append('x2.%s@ =~= %s_base(x)' % (o, p))
+                ens = 'r matches Ok(x2)' + ''.join(' && ' + e for e in eqs)
+            cm = ('// C15 sentence 1 (weak form, the property\'s own): write -> read -> write reproduces the first dictionary'
+                  if weak else '// C15 sentence 1: reading back what was written yields the value (field codecs round-trip)')
+            if ind:
+                cm += ('\n// -- through the indirect entry: the store a later reader resolves against holds what the updater created, and the\n'
+                       '// field\'s reader looks through a reference (hypotheses on the environment / the abstract codec)')
+            if o:
+                cm += '\n// (hypothesis: the catch-all of the value holds no recognised key -- true of every value from_dict returns, see %s_read)' % p
+            sig = ('x: %s, d: DMap, c0: Map<PlainRef, Primitive>, c1: Map<PlainRef, Primitive>, st: Store, r: Result<%s>' % (M, M)) if ind else ('x: %s, st: Store, r: Result<%s>' % (M, M))
+            out.append('%s\npub proof fn lemma_%s_roundtrip%s%s(%s)\n    requires\n        %s,\n    ensures %s\n{\n    %s\n}'
+                       % (cm, p, '_weak' if weak else '', gB, sig, ',\n        '.join(req), ens, '\n    '.join(body)))
         if o and not mo['indirect']:
             # ---- C15 sentence 2
             cl = ['forall|k: Seq<char>| #![trigger m.dom().contains(k)] m.dom().contains(k) && !%s_known(k) ==> out.dom().contains(k) && out[k] == m[k]' % p]
@@ -503,9 +590,9 @@ def struct_lemmas(mo):
             out.append('// C15 sentence 2: every entry of an accepted input survives read + write: unrecognised entries verbatim, a recognised\n'
                        '// entry as `writes(reads(entry))` (dropped only if that is Null); nothing is invented except the tags and entries of\n'
                        '// non-optional fields (readable from Null / defaulted)\n'
-                       'pub proof fn lemma_%s_preserves%s(m: DMap, st: Store, r: Result<%s>)\n    requires %s_read(m, st, r), r is Ok,\n    ensures ({\n'
+                       'pub proof fn lemma_%s_preserves%s(m: DMap, st: Store, r: Result<%s>)\n    requires %s, r is Ok,\n    ensures ({\n'
                        '        let x = r->Ok_0; let out = %s_dict(x);\n        &&& %s\n    })\n{\n    %s\n}'
-                       % (p, gB, M, p, p, '\n        &&& '.join(cl), facts))
+                       % (p, gB, M, RD(mo, 'm', 'r'), p, '\n        &&& '.join(cl), facts + ' lemma_%s_unknown(m);' % p))
     return '\n'.join(out)
 
 
@@ -651,9 +738,9 @@ def wstep(key, facts):
 
 
 def rstep(nxt, fact):
-    # before the statement that follows the field's `let`: the next field's `let` or the final constructor
+    # before the statement that follows the field's `let` (the next field's `let` or the final constructor): what the field was
+    # read as, in terms of the ORIGINAL dictionary d0__ -- joins the 2 non-failing paths through the field's match
     return step(nxt, fact, 'rd_model', before=True)
-
 
 
 def impl_hdr(trait, ty, bound):
@@ -661,30 +748,13 @@ def impl_hdr(trait, ty, bound):
     return r'^impl(<[^>]*>)? pdf::object::%s for %s(<[^>]*>)?$' % (trait, ty)
 
 
-def chain(fkeys, known=None):
-    """R1 ghost block at the start of a reader: the dictionary after the i-th `remove`, as a spec term over the ORIGINAL
-    dictionary d0__, and what a look-up of the (i+1)-th key in it yields -- tautologies about `del` and the distinct key
-    literals, stated once before any branching (otherwise the solver re-derives them on every path through the
-    2..3-way matches of the preceding fields)"""
-    t = ['let ghost d0__ = dict@;']
-    prev = 'd0__'
-    facts = []
-    for i, k in enumerate(fkeys):
-        if i > 0:
-            facts.append('assert(%s.dom().contains("%s"@) <==> d0__.dom().contains("%s"@)) by { broadcast use dictmodel::group_all; }' % (prev, k, k))
-            facts.append('assert(%s["%s"@] == d0__["%s"@]) by { broadcast use dictmodel::group_all; }' % (prev, k, k))
-        t.append('let ghost d%d__ = del(%s, "%s"@);' % (i + 1, prev, k))
-        prev = 'd%d__' % (i + 1)
-    if known:
-        facts.append('assert(forall|k: Seq<char>| #![trigger %s.dom().contains(k)] %s.dom().contains(k) <==> (d0__.dom().contains(k) && !%s(k))) by { broadcast use dictmodel::group_all; }' % (prev, prev, known))
-        facts.append('assert(forall|k: Seq<char>| #![trigger %s[k]] %s.dom().contains(k) ==> %s[k] == d0__[k]) by { broadcast use dictmodel::group_all; }' % (prev, prev, prev))
-    return ' '.join(t) + ' proof { ' + ' '.join(facts) + ' }'
-
-
-def from_dict(ty, mod, keys, fkeys, known, ensures, extra=()):
+def from_dict(ty, mod, keys, ensures, extra=()):
+    # the function-shaped model `r == <p>_read(dict@, store)` is ONE term for all 2n+1 exits of the body; closed `del` with its two
+    # broadcast facts; one R1 step assertion per field (rstep) -- measured: without them the 16-entry models with a catch-all run
+    # into the resource limit, with them every reader takes 0.5 .. 4 s
     return {'kind': 'fn', 'file': X, 'container': mod + [impl_hdr('FromDict', ty, 'Object')], 'name': 'from_dict',
             'props': RD, 'ensures': ensures,
-            'rewrites': [PUBFN, body_start(lits(*keys) + ' ' + chain(fkeys, known)), MAP_ERR, MISSING] + list(extra)}
+            'rewrites': [PUBFN, body_start('broadcast use dictmodel::group_all; let ghost d0__ = dict@; ' + lits(*keys)), MAP_ERR, MISSING] + list(extra)}
 
 
 def to_dict(ty, mod, keys, ensures, extra=()):
@@ -759,43 +829,47 @@ def unit_py(uname, models, decl_only):
                 for i, f in enumerate(order):
                     if f['other']:
                         continue
-                    nxt = (r'\\blet\\s+%s\\s*=' % order[i + 1]['ident']) if i + 1 < len(order) else (r'\\bOk\\(%s\\s*\\{' % n)
+                    nxt = (r'\blet\s+%s\s*=' % order[i + 1]['ident']) if i + 1 < len(order) else (r'\bOk\(%s\s*\{' % n)
                     call = rd_call(mo, f).replace('(m, ', '(d0__, ', 1)
                     assert call.endswith(', st)')
                     call = call[:-len('st)')] + 'resolve.store())'
                     if f['default'] is None:
                         fact = '%s == Ok::<%s, PdfError>(%s)' % (call, ty_rust(f['t']), f['ident'])
-                    else:
+                    elif f['dflt'][0] == 'vec2':
                         fact = '%s matches Ok(o__) && (match o__ { Some(v__) => %s == v__, None => %s })' % (call, f['ident'], dflt_spec(mo, f, f['ident'], prefix=''))
-                    ex.append('rstep(r"%s", %r)' % (nxt.replace('\\\\', '\\'), fact))
-                items.append("  '%s::from_dict': from_dict(%r, %r, %r, %r, %r, [\n      ('rd_model', '%s_read%s(dict@, resolve.store(), r)')], extra=[\n      %s]),"
-                             % (n, n, mod, keys, [f['key'] for f in mo['fields']], ('%s_known' % p) if mo['other'] else None, p, tf, ',\n      '.join(ex)))
+                    else:
+                        fact = '%s matches Ok(o__) && %s == or_default(o__, %s)' % (call, f['ident'], f['dflt'][1])
+                    ex.append('rstep(r"%s", %r)' % (nxt, fact))
+                rdm = ('%s_read%s(dict@, resolve.store(), r)' if mo['rel'] else 'r == %s_read%s(dict@, resolve.store())') % (p, tf)
+                items.append("  '%s::from_dict': from_dict(%r, %r, %r, [\n      ('rd_model', %r)], extra=[\n      %s]),"
+                             % (n, n, mod, keys, rdm, ',\n      '.join(ex)))
             if mo['writer']:
                 F = mo['fields']
                 wf = ' || '.join('self.%s.wfail()' % f['ident'] for f in F)
-                direct = [f for f in F if not f['indirect']]
                 steps = []
+                va = ind_args(mo, 'v_%s__')
                 if not mo['indirect']:
                     ens = [('wr_ok', ('r is Err ==> ' + wf) if F else 'r is Ok'),
                            ('wr_model', 'r matches Ok(d) ==> d@ =~= %s_dict%s(*self)' % (p, tf))]
-                    for i, f in enumerate(direct):
-                        nm_ = '%s_dict' % p if i == len(direct) - 1 else '%s_dict_%d' % (p, i + 1)
-                        steps.append('wstep(%r, [%r])' % (f['key'], 'dict@ =~= %s(*self)' % nm_))
                 else:
                     ens = [('wr_model', 'r matches Ok(d) ==> %s_written%s(*self, d@, old(updater).created(), final(updater).created())' % (p, tf)),
                            ('wr_frame', 'submap(old(updater).created(), final(updater).created())')]
-                    rm = ''.join('.remove(%s)' % slit(f['key']) for f in mo['indirect'])
-                    nd, seen = 0, []
-                    for f in F:
-                        if f['indirect']:
-                            seen.append(f)
-                        else:
-                            nd += 1
-                        nm_ = ('%s_rest' % p if nd == len(direct) else '%s_rest_%d' % (p, nd)) if nd else '%s_base' % p
-                        facts = ['submap(old(updater).created(), updater.created())',
-                                 'dict@%s =~= %s(*self)%s' % (rm, nm_, rm)]
-                        facts += ['%s_ind_%s(*self, dict@, old(updater).created(), updater.created())' % (p, g['ident']) for g in seen]
-                        steps.append('wstep(%r, %r)' % (f['key'], facts))
+                seen = []
+                for i, f in enumerate(F):
+                    nm_ = '%s_dict' % p if i == len(F) - 1 else '%s_dict_%d' % (p, i + 1)
+                    if f['indirect']:
+                        seen.append(f)
+                        # ghost copy of the value written under the indirect key
+                        steps.append("[{'rule': 'R1', 'count': '*', 'regex': r'(dict\\.insert\\(\"%s\",\\s*val2\\);)', 'replace': r'proof { v_%s__ = val2; } \\1'}]" % (f['key'], f['ident']))
+                    facts = ['dict@ =~= %s(*self%s)' % (nm_, va)]
+                    if mo['indirect']:
+                        facts.append('submap(old(updater).created(), updater.created())')
+                        facts += ['%s_ind_%s(*self, v_%s__, old(updater).created(), updater.created())' % (p, g['ident'], g['ident']) for g in seen]
+                    steps.append('wstep(%r, %r)' % (f['key'], facts))
+                if mo['indirect']:
+                    fin = ['%s_indval_%s(*self, dict@) == v_%s__' % (p, g['ident'], g['ident']) for g in mo['indirect']]
+                    steps.append("[step(r'\\bOk\\(dict\\)', %r, 'wr_model', before=True)]" % ' && '.join(fin))
+                    steps.append("[body_start(%r)]" % ' '.join('let ghost mut v_%s__ = pdf::primitive::Primitive::Null;' % g['ident'] for g in mo['indirect']))
                 extra = (', extra=' + ' + '.join(steps)) if steps else ''
                 items.append("  '%s::to_dict': to_dict(%r, %r, %r, %r%s)," % (n, n, mod, keys, ens, extra))
         else:
